@@ -119,6 +119,9 @@ def _client_receive(articles):
     for t in per_topic:
         if not all_msg.HasField(t):
             CUR["checks"].append(f"topic '{t}' published but missing from the 'all' topic")
+    # (view taken before applying: apply_delta stores the delta's own `added` objects in the replica and
+    # merges into them)
+    dv = delta_view(all_msg.task_proxies) if all_msg.HasField("task_proxies") else None
     for field, sub in all_msg.ListFields():
         key = field.name
         if sub.reloaded:
@@ -133,7 +136,7 @@ def _client_receive(articles):
             if mine != sub.checksum:
                 CUR["checks"].append(f"checksum of '{key}' after applying the published delta is {mine}, "
                                      f"the scheduler published {sub.checksum}")
-    return delta_view(all_msg.task_proxies) if all_msg.HasField("task_proxies") else None
+    return dv
 
 
 class RecordingQueue(Queue):
@@ -141,35 +144,93 @@ class RecordingQueue(Queue):
         try:
             CUR["nput"] += 1
             dv = _client_receive(item)
-            log("put", forced=not CUR["in_publish"], tp=dv)
+            log("put", forced=not CUR["in_publish"], tp=dv,
+                dup=bool(not CUR["in_publish"] and CUR.get("last_put") is item))
+            CUR["last_put"] = item
         except Exception as exc:   # noqa
             CUR["checks"].append(f"client replica failed to apply a published delta: {type(exc).__name__}: {exc}")
         return super().put(item, *a, **k)
 
 
+def _diff_fields(a, b):
+    return [f.name for f in b.DESCRIPTOR.fields if getattr(a, f.name) != getattr(b, f.name)]
+
+
+def _only_multiplicity(a, b, fields, live=None):
+    """True when the replica element a and the store element b differ only in how often entries of repeated
+    scalar fields occur (also inside singular sub-messages, e.g. PbWorkflow.edges.edges), or in entries that
+    only the replica has and that refer to elements which no longer exist (a duplicated id survives the
+    pruning of the element, because pruning removes one occurrence)."""
+    for name in fields:
+        fd = b.DESCRIPTOR.fields_by_name[name]
+        if fd.message_type is not None:
+            if fd.is_repeated:
+                return False          # repeated messages / maps
+            sa, sb = getattr(a, name), getattr(b, name)
+            if not _only_multiplicity(sa, sb, _diff_fields(sa, sb), live):
+                return False
+        elif not fd.is_repeated:
+            return False
+        else:
+            ra, rb = set(getattr(a, name)), set(getattr(b, name))
+            if not rb <= ra:
+                return False
+            if any(live is None or x in live for x in ra - rb):
+                return False
+    return True
+
+
+def _describe_multiplicity(key, rid, a, e, fields):
+    f0 = fields[0]
+    va, ve = getattr(a, f0), getattr(e, f0)
+    if hasattr(va, "DESCRIPTOR"):
+        return f"{key}{rid}.{f0} (sub-message): repeated entries occur with different multiplicity"
+    return (f"{key}{rid}.{f0}: client replica has {len(va)} entries, scheduler store {len(ve)} "
+            f"(same values, or duplicates that outlived a pruned element)")
+
+
 def compare_replica(ds):
-    """None, or text describing the first difference replica vs scheduler store."""
+    """{"serious": text|None, "repeated": text|None, "repeated_wf": text|None}: differences replica vs scheduler
+    store.  "repeated" (task proxies and other elements) / "repeated_wf" (the workflow element): differences that
+    are only multiplicities of entries of repeated scalar fields (known defects, see known_findings.d/C25.json);
+    everything else is serious."""
+    out = {"serious": None, "repeated": None, "repeated_wf": None}
     data = ds.data[ds.workflow_id]
     rep = CUR["replica"]
     if rep is None:
-        return "no replica (nothing was ever published)"
+        out["serious"] = "no replica (nothing was ever published)"
+        return out
+    live = set()
+    for key, val in data.items():
+        if key != "workflow":
+            live.update(val)
     for key, val in data.items():
         if key == "workflow":
             if rep[key] != val:
-                a, b = rep[key], val
-                diff = [f.name for f in val.DESCRIPTOR.fields if getattr(a, f.name) != getattr(b, f.name)]
-                return f"workflow element differs in fields {diff}"
+                fields = _diff_fields(rep[key], val)
+                if _only_multiplicity(rep[key], val, fields, live):
+                    out["repeated_wf"] = _describe_multiplicity("workflow", "", rep[key], val, fields)
+                else:
+                    out["serious"] = f"workflow element differs in fields {fields}"
+                    return out
             continue
         if set(rep[key]) != set(val):
             only_r = sorted(set(rep[key]) - set(val))[:3]
             only_s = sorted(set(val) - set(rep[key]))[:3]
-            return f"{key}: ids only in the client replica {only_r}, only in the scheduler store {only_s}"
+            out["serious"] = f"{key}: ids only in the client replica {only_r}, only in the scheduler store {only_s}"
+            return out
         for i, e in val.items():
-            if rep[key][i] != e:
-                a = rep[key][i]
-                diff = [f.name for f in e.DESCRIPTOR.fields if getattr(a, f.name) != getattr(e, f.name)]
-                return f"{key}[{i}] differs in fields {diff}"
-    return None
+            a = rep[key][i]
+            if a != e:
+                fields = _diff_fields(a, e)
+                rid = "[" + i.split("//", 1)[1] + "]"
+                if _only_multiplicity(a, e, fields, live):
+                    if out["repeated"] is None:
+                        out["repeated"] = _describe_multiplicity(key, rid, a, e, fields)
+                else:
+                    out["serious"] = f"{key}{rid} differs in fields {fields}"
+                    return out
+    return out
 
 
 # ---------------------------------------------------------------------------
@@ -346,6 +407,7 @@ def extra_snapshot(schd):
         out["publish_pending"] = bool(ds.publish_pending)
         out["updates_pending"] = bool(ds.updates_pending)
         out["diff"] = None if ds.publish_pending else compare_replica(ds)
+        out["n_edge_distance"] = ds.n_edge_distance
         out["checks"] = list(CUR["checks"])
         CUR["checks"].clear()
         out["nput"] = CUR["nput"]
@@ -362,6 +424,17 @@ def install(driver):
     if _DONE["installed"]:
         return
     _DONE["installed"] = True
+    o_qc = driver.queue_command
+
+    async def queue_command(schd, name, kwargs):
+        if name == "x_window":
+            # the GraphQL mutation's resolver calls this directly (it is not a scheduler command)
+            driver.ev("op_window", n=kwargs["n"])
+            schd.data_store_mgr.set_graph_window_extent(kwargs["n"])
+            return True
+        return await o_qc(schd, name, kwargs)
+    driver.queue_command = queue_command
+
     if hasattr(driver, "EXTRA_PATCHES") and hasattr(driver, "EXTRA_SNAPSHOT"):
         driver.EXTRA_PATCHES.append(patch_store)
         driver.EXTRA_SNAPSHOT.append(lambda schd: {"ds": extra_snapshot(schd)})
@@ -378,18 +451,8 @@ def install(driver):
         return snap
     driver.patch = patch
     driver.snapshot = snapshot
-    o_qc = driver.queue_command
-
-    async def queue_command(schd, name, kwargs):
-        if name == "x_window":
-            # the GraphQL mutation's resolver calls this directly (not a scheduler command)
-            driver.ev("op_window", n=kwargs["n"])
-            schd.data_store_mgr.set_graph_window_extent(kwargs["n"])
-            return True
-        return await o_qc(schd, name, kwargs)
-    driver.queue_command = queue_command
 
 
 def reset_run():
     LOG.clear()
-    CUR.update({"replica": None, "wid": None, "checks": [], "in_publish": 0, "nput": 0})
+    CUR.update({"replica": None, "wid": None, "checks": [], "in_publish": 0, "nput": 0, "last_put": None})
